@@ -276,8 +276,9 @@ class MrpProtocol(MessageDispatcher[int, protobuf.ProtocolMessage]):
 
         except BaseException:
             # Also when the caller gives up (is cancelled): a message arriving later
-            # answers no outstanding request and shall be dispatched to listeners
-            del self._outstanding[identifier]
+            # answers no outstanding request and shall be dispatched to listeners. The
+            # entry might be gone already if the protocol was stopped in the meantime.
+            self._outstanding.pop(identifier, None)
             raise
 
         response = self._outstanding[identifier].response
